@@ -453,6 +453,6 @@ func CheckC07(c *C07Case, st *Stats) error {
 
 func init() {
 	Register("C07",
-		"pairs and triples of NaN-free trees (the infinities included) with the same root kind (incl. long lists of 60-130 scalars edited near the end, wide objects of 60-129 keys, chains up to 70 levels): b is a rebuilt copy of a, a with exactly one edit at a drawn depth (scalar value changed (also by letter case only); scalar kind changed keeping its spelling 1<->1.0, nil<->false, \"1\"<->1, []<->{}; key renamed; element/field appended, prepended or removed; two elements swapped; field insertion order permuted), two edits, or an unrelated tree; triples chain two such steps. Oracle: Equals(x,y) == typed structural equality computed by the harness on the generator's trees for ALL ordered pairs (so reflexivity, symmetry, transitivity are also asserted explicitly), Equals with an independently rebuilt copy is true, no call panics, operands unchanged (content and identities). Non-trivial = b (or c) derived by one or two edits (including the order permutation that must stay equal). Distinct = distinct FNV-64a hash of the case JSON.",
+		"pairs and triples of NaN-free trees (the infinities included) with the same root kind (incl. long lists of 60-130 scalars edited near the end, wide objects of 60-129 keys, chains up to 70 levels): b is a rebuilt copy of a, a with exactly one edit at a drawn depth (scalar value changed (also by letter case only); scalar kind changed keeping its spelling 1<->1.0, nil<->false, \"1\"<->1, []<->{}; key renamed; element/field appended, prepended or removed; two elements swapped; field insertion order permuted), two edits, or an unrelated tree; triples chain two such steps. Oracle: Equals(x,y) == typed structural equality computed by the harness on the generator's trees for ALL ordered pairs (so reflexivity, symmetry, transitivity are also asserted explicitly), Equals with an independently rebuilt copy is true, no call panics, operands unchanged (content and identities). Non-trivial = b (or c) derived by one or two edits (including the order permutation that must stay equal). Distinct = distinct FNV-64a hash of the case JSON. For list roots additionally: x in order and y in reverse order answer Sum/Avg/Prod/Min/Max/IntSum/String, x is reversed, then x.Equals(y) and y.Equals(x) must hold.",
 		GenC07, CheckC07)
 }
